@@ -4,7 +4,13 @@
 import copy
 
 from ._compat import PY_3_9_PLUS, get_generic_base
-from ._make import _HASH_CACHE_FIELD, _OBJ_SETATTR, NOTHING, fields
+from ._make import (
+    _HASH_CACHE_FIELD,
+    _OBJ_SETATTR,
+    NOTHING,
+    Attribute,
+    fields,
+)
 from .exceptions import AttrsAttributeNotFoundError
 
 
@@ -391,7 +397,9 @@ def assoc(inst, **changes):
     attrs = fields(inst.__class__)
     for k, v in changes.items():
         a = getattr(attrs, k, NOTHING)
-        if a is NOTHING:
+        # The fields tuple also resolves tuple's own attributes (count, index,
+        # __len__, ...): only an Attribute is a field.
+        if not isinstance(a, Attribute):
             msg = f"{k} is not an attrs attribute on {new.__class__}."
             raise AttrsAttributeNotFoundError(msg)
         _OBJ_SETATTR(new, k, v)
